@@ -8,6 +8,7 @@ import (
 	"fmt"
 	"math"
 	"math/big"
+	"regexp"
 	"strings"
 	"testing"
 
@@ -21,6 +22,21 @@ type c19Case struct {
 	N int    `json:"n"`
 	B bool   `json:"b"`
 	S string `json:"s"` // a string that is neither a number nor a boolean
+	// Crowd: every call f($x) is written pick(f($y), f($x), f($z)) - three results of the same built-in alive at once, the
+	// contracts are checked on the middle one. Decoy: another runner of the process has registered its own functions under
+	// the names of all built-ins before this one is created (what a host does to one runner is that runner's business).
+	Crowd bool `json:"crowd,omitempty"`
+	Decoy bool `json:"decoy,omitempty"`
+}
+
+var c19Names = []string{"floor", "ceil", "inc", "dec", "integer", "decimal", "round", "round_places", "string", "number", "bool"}
+
+var c19CrowdRe = regexp.MustCompile(`\b(floor|ceil|inc|dec|integer|decimal|round|string)\(\$x\)|\bround_places\(\$x, \$n\)`)
+
+func c19Crowded(script string) string {
+	return c19CrowdRe.ReplaceAllStringFunc(script, func(call string) string {
+		return "pick(" + strings.Replace(call, "$x", "$y", 1) + ", " + call + ", " + strings.Replace(call, "$x", "$z", 1) + ")"
+	})
 }
 
 var c19Script = "title: Start\n---\n" +
@@ -52,14 +68,35 @@ func runC19(c c19Case) Verdict {
 	storer.SetNumberValue("n", float64(c.N))
 	storer.SetBooleanValue("b", c.B)
 	storer.SetStringValue("s", c.S)
+	storer.SetNumberValue("y", x+1.25)
+	storer.SetNumberValue("z", -x*0.5-3)
 	script := c19Script
+	if c.Crowd {
+		script = c19Crowded(script)
+	}
 	if c.B {
-		script = strings.Replace(c19Script, "---\n", "---\n"+c19FailingFirst, 1)
+		script = strings.Replace(script, "---\n", "---\n"+c19FailingFirst, 1)
+	}
+	if c.Decoy {
+		decoy, err := ysgo.NewDialogueRunner(nil, "abc", strings.NewReader("title: Decoy\n---\n{floor(1.5)}\n===\n"))
+		if err != nil {
+			return failf("decoy script does not load: %v", err)
+		}
+		for _, name := range c19Names {
+			decoy.AddFunction(name, func([]*variable.Value) (*variable.Value, error) { return variable.NewString("the decoy runner's own function"), nil })
+		}
+		_ = decoy.ConvertAndAddFunction("floor", func(x float64) float64 { return x / 3 })
 	}
 	dr, err := ysgo.NewDialogueRunner(storer, "abc", strings.NewReader(script))
 	if err != nil {
 		return failf("script does not load: %v", err)
 	}
+	dr.AddFunction("pick", func(args []*variable.Value) (*variable.Value, error) {
+		if len(args) != 3 {
+			return nil, fmt.Errorf("pick expects three arguments")
+		}
+		return args[1], nil
+	})
 	got := map[string]mval{}
 	dr.AddFunction("cap", func(args []*variable.Value) (*variable.Value, error) {
 		if len(args) == 2 && args[0].String != nil {
@@ -202,6 +239,12 @@ func runC19(c c19Case) Verdict {
 	if x == 0 && math.Signbit(x) {
 		cls = append(cls, "negative-zero")
 	}
+	if c.Crowd {
+		cls = append(cls, "three-results-alive")
+	}
+	if c.Decoy {
+		cls = append(cls, "decoy-runner")
+	}
 	return Verdict{NonTrivial: x != math.Trunc(x), Classes: cls}
 }
 
@@ -242,12 +285,13 @@ var c19Builtins = Register(Prop[c19Case]{
 	ID: "C19", Name: "builtins",
 	Gen: func(t *rapid.T) c19Case {
 		return c19Case{X: numVal(genC19X(t)), N: rapid.IntRange(0, 8).Draw(t, "n"), B: rapid.Bool().Draw(t, "b"),
-			S: rapid.SampledFrom([]string{"abc", "", "12abc", "--1", "1,5", "one", "maybe", "yes", "tru", "é", " ", "1 2"}).Draw(t, "s")}
+			S:     rapid.SampledFrom([]string{"abc", "", "12abc", "--1", "1,5", "one", "maybe", "yes", "tru", "é", " ", "1 2"}).Draw(t, "s"),
+			Crowd: rapid.IntRange(0, 2).Draw(t, "crowd") == 0, Decoy: rapid.IntRange(0, 3).Draw(t, "decoy") == 0}
 	},
 	Run: runC19,
 	Render: func(c c19Case) any {
 		c.X.fix()
-		return map[string]any{"x": fmt.Sprintf("%v (bits %s)", c.X.N, c.X.NBits), "n": c.N, "b": c.B, "s": c.S}
+		return map[string]any{"x": fmt.Sprintf("%v (bits %s)", c.X.N, c.X.NBits), "n": c.N, "b": c.B, "s": c.S, "three_results_alive": c.Crowd, "decoy_runner": c.Decoy}
 	},
 })
 
@@ -257,12 +301,12 @@ var c19Sweep = Register(Prop[c19Case]{ID: "C19", Name: "sweep", Run: runC19, Ren
 
 func TestC19Sweep(t *testing.T) {
 	limit := envInt("VERIF_C19_SWEEP", 2000)
-	Enumerate(t, c19Sweep, true, fmt.Sprintf("every k+0.5, k-ulp, k+ulp and k for |k| <= %d, every power of two 2^-60..2^51 with both signs and its neighbours, every n in 0..8 on a rotating basis", limit),
+	Enumerate(t, c19Sweep, true, fmt.Sprintf("every k+0.5, k-ulp, k+ulp and k for |k| <= %d, every power of two 2^-60..2^51 with both signs and its neighbours, every n in 0..8 on a rotating basis; every fifth case with three results of each built-in alive at once, every seventh next to a decoy runner", limit),
 		func(yield func(c19Case) bool) {
 			i := 0
 			emit := func(x float64) bool {
 				i++
-				return yield(c19Case{X: numVal(x), N: i % 9, B: i%2 == 0, S: "abc"})
+				return yield(c19Case{X: numVal(x), N: i % 9, B: i%2 == 0, S: "abc", Crowd: i%5 == 0, Decoy: i%7 == 0})
 			}
 			for k := -limit; k <= limit; k++ {
 				f := float64(k)
